@@ -7,7 +7,7 @@ import math
 import numpy as np
 from hypothesis import strategies as st
 
-from ..core import SubCheck, Violation, cut, require
+from ..core import other_environment_body, SubCheck, Violation, cut, require
 from ..oracles import tables as otab
 from ..rng_script import scripted
 from ..strategies import LAYOUTS
@@ -217,6 +217,18 @@ op_st = st.one_of(
     st.fixed_dictionaries({"op": st.just("call"), "version": version_st, "events": st.lists(st.tuples(log_e_st, st.floats(BETA_MIN, BETA_MAX)).map(list), min_size=1, max_size=8), "c": st.floats(0.01, 0.99)}),
 )
 
+REJECT_ST = (
+        st.integers(1, 4).flatmap(
+            lambda k: st.fixed_dictionaries(
+                {
+                    "version": version_st,
+                    "log_e": st.lists(st.one_of(outside_e, outside_e, log_e_st), min_size=k, max_size=k),
+                    "beta": st.lists(st.one_of(beta_st, st.floats(0.0, BETA_MIN)), min_size=k, max_size=k),
+                }
+            )
+        )
+)
+
 SUBCHECKS = [
     SubCheck(
         "pointwise",
@@ -229,15 +241,7 @@ SUBCHECKS = [
     ),
     SubCheck(
         "rejects",
-        st.integers(1, 4).flatmap(
-            lambda k: st.fixed_dictionaries(
-                {
-                    "version": version_st,
-                    "log_e": st.lists(st.one_of(outside_e, outside_e, log_e_st), min_size=k, max_size=k),
-                    "beta": st.lists(st.one_of(beta_st, st.floats(0.0, BETA_MIN)), min_size=k, max_size=k),
-                }
-            )
-        ),
+        REJECT_ST,
         body_rejects,
         lambda labels: "raised" in labels,
         {"quick": 600, "thorough": 20000},
@@ -259,5 +263,14 @@ SUBCHECKS = [
         {"quick": 1},
         doc="one call with 2^20+4097 events (more sizes in the thorough tier): every event vs the table reference, whole == parts",
         exhaustive=_huge_cases,
+    ),
+    SubCheck(
+        "rejects_other_environment",
+        st.fixed_dictionaries({"cases": st.lists(REJECT_ST, min_size=8, max_size=16), "env": st.sampled_from([0, 1])}),
+        other_environment_body("nssverif.props.c05", "rejects", [{"PYTHONOPTIMIZE": "1"}, {"PYTHONOPTIMIZE": "2", "LC_ALL": "C", "PYTHONUTF8": "0", "PYTHONCOERCECLOCALE": "0"}]),
+        lambda labels: True,
+        {"quick": 2, "thorough": 40},
+        doc="generated rejection cases re-run in a fresh interpreter under python -O / -OO (assert statements stripped): out-of-table energies are still refused",
+        shrink=False,
     ),
 ]
